@@ -8,8 +8,15 @@ GUARD = 'kryptonitedao_krp_staking_contracts_verif'
 _built = {}
 
 def build():
-    """(re)build build/target/release/krp-replay from /repo's current sources; returns path or None"""
+    """(re)build the replay binary from the current sources of the tree under check; returns path or None"""
     if 'bin' in _built: return _built['bin']
+    try:
+        return _build()
+    except Exception as e:
+        _built['bin'] = None; _built['err'] = 'replay build failed: %r' % (e,)
+        return None
+
+def _build():
     import hashlib
     tag = 'main' if os.path.realpath(REPO) == '/repo' else hashlib.sha256(os.path.realpath(REPO).encode()).hexdigest()[:10]
     crate = os.path.join(BUILD, 'replay_crate-' + tag)
@@ -20,7 +27,9 @@ def build():
         open(mp, 'w').write(man)
     lock = os.path.join(crate, 'Cargo.lock')
     if not os.path.exists(lock):
-        shutil.copy(os.path.join(REPO, 'Cargo.lock'), lock)
+        src_lock = os.path.join(REPO, 'Cargo.lock')
+        if not os.path.exists(src_lock): src_lock = os.path.join(VERIF, 'replay', 'Cargo.lock.fallback')
+        shutil.copy(src_lock, lock)
     src = os.path.join(crate, 'src')
     os.makedirs(src, exist_ok=True)
     for f in os.listdir(os.path.join(VERIF, 'replay', 'src')):
